@@ -36,7 +36,9 @@ CONSTANTS MaxObjs,      \* identity-bearing objects
           ValScalars,   \* inline scalar classes usable as values
           KeyScalars,   \* inline scalar classes usable as dict keys / set members
           CellTypes,    \* subset of {"list","dict","set","date","dtn","dta","dts"}
-          DateRanks,    \* ranks (abstract values) of date / datetime objects
+          DateRanks,    \* ranks (abstract values) of date / datetime objects (for datetimes: of the local time)
+          TzShapes,     \* UTC offsets of aware datetimes: subset of {"utc","p00","pH0","p0M","pHM","nH0","n0M","nHM"}
+                        \* (timezone.utc, +00:00, sign x {zero, non-zero} hours x {zero, non-zero} minutes)
           SortOpts,     \* subset of BOOLEAN            : sort_keys
           FlowOpts,     \* subset of {"T","F","N"}      : default_flow_style True / False / None
           StyleOpts,    \* subset of {"", "q"}          : default_style None / one of ' " | >
@@ -63,7 +65,7 @@ ASSUME CellTypes \subseteq Containers \cup DateTypes
 
 S(s) == [id |-> 0, s |-> s]          \* inline scalar
 N(i) == [id |-> i, s |-> "-"]        \* reference to heap[i]
-Cell(t, r) == [t |-> t, r |-> r, c |-> <<>>]
+Cell(t, r, z) == [t |-> t, r |-> r, z |-> z, c |-> <<>>]   \* z: the UTC offset of an aware datetime, "-" otherwise
 
 OddPos(c) == {p \in DOMAIN c : p % 2 = 1}
 
@@ -99,7 +101,8 @@ KeysOf(cell) == IF cell.t = "dict" THEN {cell.c[p] : p \in OddPos(cell.c)}
 (***************************************************************************)
 (* L.1  Representer (representer.py)                                       *)
 (***************************************************************************)
-NoText == [f |-> "-", of |-> "-", r |-> 0]
+NoOff == [s |-> "none", h |-> 0, m |-> 0]
+NoText == [f |-> "-", of |-> "-", r |-> 0, z |-> NoOff]
 \* what the SafeRepresenter.represent_* method writes for a scalar: a form and the value it encodes
 ScalarForm(s) == CASE s = "none" -> "null"
                    [] s \in {"true", "false"} -> "bool"
@@ -109,15 +112,26 @@ ScalarForm(s) == CASE s = "none" -> "null"
                    [] s \in FloatClasses -> "float"          \* repr(), with ".0" spliced in before an exponent
                    [] s \in StrClasses -> "str"
                    [] s \in BytesClasses -> "b64"
-ScalarText(s) == [f |-> ScalarForm(s), of |-> s, r |-> 0]
+ScalarText(s) == [f |-> ScalarForm(s), of |-> s, r |-> 0, z |-> NoOff]
 ScalarTag(s) == CASE s = "none" -> "null"
                   [] s \in {"true", "false"} -> "bool"
                   [] s \in IntClasses -> "int"
                   [] s \in FloatClasses -> "float"
                   [] s \in StrClasses -> "str"
                   [] s \in BytesClasses -> "binary"
-\* represent_date / represent_datetime: isoformat(); an offset with seconds is written with its seconds
-DateText(cell) == [f |-> IF cell.t = "dts" /\ D7Fixed THEN "dta" ELSE cell.t, of |-> "-", r |-> cell.r]
+\* isoformat() of the UTC offset: sign, hours (zero / non-zero), minutes (zero / non-zero); timezone.utc is +00:00
+OffsetText(z) == CASE z \in {"utc", "p00"} -> [s |-> "+", h |-> 0, m |-> 0]
+                   [] z = "pH0" -> [s |-> "+", h |-> 1, m |-> 0]
+                   [] z = "p0M" -> [s |-> "+", h |-> 0, m |-> 1]
+                   [] z = "pHM" -> [s |-> "+", h |-> 1, m |-> 1]
+                   [] z = "nH0" -> [s |-> "-", h |-> 1, m |-> 0]
+                   [] z = "n0M" -> [s |-> "-", h |-> 0, m |-> 1]
+                   [] z = "nHM" -> [s |-> "-", h |-> 1, m |-> 1]
+                   [] OTHER -> NoOff
+\* represent_date / represent_datetime: isoformat(); an offset with seconds is written with its seconds - or, with
+\* the repair D7, the same instant is written in UTC
+DateText(cell) == [f |-> IF cell.t = "dts" /\ D7Fixed THEN "dta" ELSE cell.t, of |-> "-", r |-> cell.r,
+                   z |-> IF cell.t = "dts" THEN (IF D7Fixed THEN OffsetText("utc") ELSE NoOff) ELSE OffsetText(cell.z)]
 
 \* resolver.py: the tag a PLAIN scalar with this text resolves to (implicit = (True, False))
 PlainTag(text) ==
@@ -288,16 +302,29 @@ Unset == [id |-> 0, s |-> "?unset"]
 KInit(cn) == [objs |-> <<>>, cons |-> [n \in 1 .. Len(cn) |-> Unset], rec |-> {}, gens |-> <<>>, err |-> "", last |-> Unset]
 
 \* construct_yaml_null/bool/int/float/str/binary/timestamp on the text the representer wrote
+\* convert_yaml_timestamp: delta = timedelta(hours = tz_hour, minutes = tz_minute); if tz_sign == '-': delta = -delta
+\* (the sign applies to the finished offset, also when the hours are zero; -00:00 and +00:00 are the same offset)
+ParsedShape(o) ==
+  CASE o.s = "none" -> "-"
+    [] o.h = 0 /\ o.m = 0 -> "p00"
+    [] o.s = "+" /\ o.h = 1 /\ o.m = 0 -> "pH0"
+    [] o.s = "+" /\ o.h = 0 /\ o.m = 1 -> "p0M"
+    [] o.s = "+" /\ o.h = 1 /\ o.m = 1 -> "pHM"
+    [] o.s = "-" /\ o.h = 1 /\ o.m = 0 -> "nH0"
+    [] o.s = "-" /\ o.h = 0 /\ o.m = 1 -> "n0M"
+    [] o.s = "-" /\ o.h = 1 /\ o.m = 1 -> "nHM"
+Inline(s) == [kind |-> "inline", s |-> s, t |-> "-", r |-> 0, z |-> "-"]
 ScalarValue(tag, text) ==
-  CASE tag = "null" -> [kind |-> "inline", s |-> "none", t |-> "-", r |-> 0]
-    [] tag = "bool" /\ text.f = "bool" -> [kind |-> "inline", s |-> text.of, t |-> "-", r |-> 0]
-    [] tag = "int" /\ text.f = "int" -> [kind |-> "inline", s |-> text.of, t |-> "-", r |-> 0]
-    [] tag = "float" /\ text.f \in {"float", "inf", "nan"} -> [kind |-> "inline", s |-> text.of, t |-> "-", r |-> 0]
-    [] tag = "str" /\ text.f = "str" -> [kind |-> "inline", s |-> text.of, t |-> "-", r |-> 0]
-    [] tag = "binary" /\ text.f = "b64" -> [kind |-> "inline", s |-> text.of, t |-> "-", r |-> 0]
-    [] tag = "timestamp" /\ text.f \in {"date", "dtn", "dta"} -> [kind |-> "cell", s |-> "-", t |-> text.f, r |-> text.r]
-    [] tag = "timestamp" /\ text.f = "dts" -> [kind |-> "crash", s |-> "-", t |-> "-", r |-> 0]  \* timestamp_regexp.match(...) is None
-    [] OTHER -> [kind |-> "inline", s |-> "?", t |-> "-", r |-> 0]      \* the tag was lost: some other value
+  CASE tag = "null" -> Inline("none")
+    [] tag = "bool" /\ text.f = "bool" -> Inline(text.of)
+    [] tag = "int" /\ text.f = "int" -> Inline(text.of)
+    [] tag = "float" /\ text.f \in {"float", "inf", "nan"} -> Inline(text.of)
+    [] tag = "str" /\ text.f = "str" -> Inline(text.of)
+    [] tag = "binary" /\ text.f = "b64" -> Inline(text.of)
+    [] tag = "timestamp" /\ text.f \in {"date", "dtn", "dta"} ->
+         [kind |-> "cell", s |-> "-", t |-> text.f, r |-> text.r, z |-> ParsedShape(text.z)]
+    [] tag = "timestamp" /\ text.f = "dts" -> [kind |-> "crash", s |-> "-", t |-> "-", r |-> 0, z |-> "-"]  \* timestamp_regexp.match(...) is None
+    [] OTHER -> Inline("?")      \* the tag was lost: some other value
 
 ConstructObject(cn, K, n) ==
   IF K.err # "" THEN K
@@ -308,11 +335,11 @@ ConstructObject(cn, K, n) ==
     THEN LET x == ScalarValue(nd.tag, nd.v) IN
          IF x.kind = "crash" THEN [K EXCEPT !.err = "crash"]
          ELSE IF x.kind = "inline" THEN [K EXCEPT !.cons[n] = S(x.s), !.last = S(x.s)]
-         ELSE LET j == Len(K.objs) + 1 IN [K EXCEPT !.objs = Append(@, Cell(x.t, x.r)), !.cons[n] = N(j), !.last = N(j)]
+         ELSE LET j == Len(K.objs) + 1 IN [K EXCEPT !.objs = Append(@, Cell(x.t, x.r, x.z)), !.cons[n] = N(j), !.last = N(j)]
     ELSE \* data = [] / {} / set(); yield data; ... : first phase only, the generator is queued
          LET j == Len(K.objs) + 1
              t == IF nd.k = "seq" THEN "list" ELSE IF nd.tag = "set" THEN "set" ELSE "dict"
-         IN  [K EXCEPT !.objs = Append(@, Cell(t, 0)), !.cons[n] = N(j), !.last = N(j), !.gens = Append(@, n)]
+         IN  [K EXCEPT !.objs = Append(@, Cell(t, 0, "-")), !.cons[n] = N(j), !.last = N(j), !.gens = Append(@, n)]
 
 \* mapping[key] = value on the children of a dict (flat k, v, k, v): an equal key keeps its place
 DictPut(h, c, k, v) ==
@@ -363,7 +390,11 @@ PyType(s) == CASE s = "none" -> "NoneType" [] s \in {"true", "false"} -> "bool" 
 TypeLabel(t) == CASE t = "dtn" -> "datetime" [] t \in {"dta", "dts"} -> "datetime-aware" [] OTHER -> t
 RankStr == <<"0", "1", "2", "3", "4", "5">>
 GenV(v) == IF v.id = 0 THEN [id |-> 0, t |-> PyType(v.s), d |-> v.s] ELSE [id |-> v.id, t |-> "", d |-> ""]
-Gen(h) == [i \in DOMAIN h |-> [t |-> TypeLabel(h[i].t), d |-> RankStr[h[i].r + 1], c |-> [j \in DOMAIN h[i].c |-> GenV(h[i].c[j])]]]
+\* the value of an aware datetime is its instant: here the local time (rank) together with the offset; timezone.utc and
+\* +00:00 are the same offset; a dts object (offset with seconds) is identified by its UTC time
+ZNorm(cell) == IF cell.t = "dts" \/ cell.z = "utc" THEN "p00" ELSE cell.z
+Gen(h) == [i \in DOMAIN h |-> [t |-> TypeLabel(h[i].t), d |-> <<RankStr[h[i].r + 1], ZNorm(h[i])>>,
+                               c |-> [j \in DOMAIN h[i].c |-> GenV(h[i].c[j])]]]
 
 (***************************************************************************)
 (* H: the statements of C02 and C16 about one value h, v dumped with       *)
@@ -461,7 +492,9 @@ RunL(h, o, v) ==
 (* iteration order of a set.  `last` names the step (for the coverage      *)
 (* count of the harness).                                                  *)
 (***************************************************************************)
-NewCells == {Cell(t, 0) : t \in CellTypes \cap Containers} \cup {Cell(t, r) : t \in CellTypes \cap DateTypes, r \in DateRanks}
+NewCells == {Cell(t, 0, "-") : t \in CellTypes \cap Containers}
+            \cup {Cell(t, r, "-") : t \in CellTypes \cap (DateTypes \ {"dta"}), r \in DateRanks}
+            \cup {Cell("dta", r, z) : r \in (IF "dta" \in CellTypes THEN DateRanks ELSE {}), z \in TzShapes}
 \* what a new child can be: an inline scalar, an existing object, a new object
 Choices(h, scalars, hashable) ==
   {[h |-> h, v |-> S(s), new |-> FALSE] : s \in scalars}
